@@ -17,7 +17,7 @@ RULE = (
     'thorough: all 230) with a random compatible lattice; 1-3 sites per group, uniform or within 0.03 of a cell '
     'face (symmetry images fall outside [0,1)); 100-1500 input positions (uniform + clustered around symmetry '
     'images of the site); radius 0.2-0.45 x the smallest perpendicular width; SpaceGroup and spglib '
-    'SpacegroupOperations; analyze_positions and analyze_trajectory with integer supercells up to 3x2x2, the trajectory handed over in position representation, left in displacement representation by an earlier query, or built from displacements + base positions.  Oracle: '
+    'SpacegroupOperations; analyze_positions and analyze_trajectory with integer supercells up to 3x2x2, a second analyzer per case for the same group type in another setting (rigidly shifted structure, spglib operations), the trajectory handed over in position representation, left in displacement representation by an earlier query, or built from displacements + base positions.  Oracle: '
     'per operation, image-enumeration distances from op(site) to every position, inverse operation applied to the '
     'nearest image.  Non-trivial = at least one collected point whose symmetry image of the site lies outside '
     '[0,1) and at least 5 points collected; distinct = SHA-1 of (group, lattice, site, positions).'
@@ -42,8 +42,10 @@ def units(tier):
 def setup(ctx):
     from gemdat.shape import ShapeAnalyzer
 
-    _mon.attach(ShapeAnalyzer, 'analyze_positions', label='ShapeAnalyzer.analyze_positions')
-    _mon.attach(ShapeAnalyzer, 'analyze_trajectory', label='ShapeAnalyzer.analyze_trajectory')
+    from .. import retain as _rt
+
+    _mon.attach(ShapeAnalyzer, 'analyze_positions', label='ShapeAnalyzer.analyze_positions', retain=_rt.shapes, scribble=True)
+    _mon.attach(ShapeAnalyzer, 'analyze_trajectory', label='ShapeAnalyzer.analyze_trajectory', retain=_rt.shapes, scribble=True)
     _mon.attach(ShapeAnalyzer, 'find_equivalent_positions', label='ShapeAnalyzer.find_equivalent_positions')
 
 
@@ -256,6 +258,34 @@ def run_unit(unit, rng, ctx):
             compare(ctx, what + f' supercell={sc} site {np.round(s.frac_coords, 4).tolist()}', wit, shp, want, knife, radius)
             tot_out += outside
             tot_pts += len(want)
+        # a second analyzer for the SAME space-group type in another setting (the structure shifted rigidly by a
+        # random vector: same symbol and number, other operations), used in the same process right afterwards
+        if n > 1:
+            try:
+                st2 = Structure.from_spacegroup(sg.symbol, lat, ['Li'] * n_sites, sites_frac)
+                tvec = rng.uniform(0.05, 0.45, size=3)
+                st2.translate_sites(list(range(len(st2))), tvec, frac_coords=True, to_unit_cell=True)
+                an2 = ShapeAnalyzer.from_structure(st2)
+                ops2 = list(an2.spacegroup)
+                m2 = np.asarray(an2.lattice.matrix)
+                iso2 = all(np.allclose((m2.T @ np.asarray(op.rotation_matrix) @ np.linalg.inv(m2.T)) @ (m2.T @ np.asarray(op.rotation_matrix) @ np.linalg.inv(m2.T)).T, np.eye(3), atol=1e-8) for op in ops2)
+            except Exception:  # noqa: BLE001  (spglib could not analyse the synthetic structure)
+                an2, iso2 = None, False
+            if an2 is not None and iso2 and len(ops2) * len(an2.sites) <= 800:
+                site2 = an2.sites[0]
+                inv2 = np.linalg.inv(m2)
+                wmin2 = geom.perp_widths(m2).min()
+                rad2 = float(min(radius, 0.45 * wmin2))
+                pos2 = [rng.uniform(0, 1, size=(80, 3))]
+                for op in [ops2[int(i)] for i in rng.choice(len(ops2), size=min(len(ops2), 6), replace=False)]:
+                    sym = np.asarray(op.operate(site2.frac_coords))
+                    pos2.append(np.mod(sym[None, :] + (gen.random_unit_vectors(rng, 15) * rng.uniform(0, 1.2 * rad2, size=(15, 1))) @ inv2, 1))
+                pos2 = np.vstack(pos2)
+                pos2[pos2 == 1] = 0
+                shp2 = an2.analyze_positions(pos2.copy(), radius=rad2)
+                want2, knife2, _ = oracle(ops2, m2, np.asarray(site2.frac_coords), pos2, rad2)
+                compare(ctx, f'{sg.symbol} (#{n}) second analyzer, structure shifted by {np.round(tvec, 3).tolist()} (spglib ops={len(ops2)})', {**wit, 'shift': tvec}, shp2[0], want2, knife2, rad2)
+                ctx.count('second_analyzer_same_group_other_setting')
     ctx.count('points_collected', tot_pts)
     ctx.count('points_from_images_outside_unit_cell', tot_out)
     ctx.count(f'crystal_system:{sg.crystal_system}')
